@@ -41,7 +41,8 @@ type Chain struct {
 	Ctx sdk.Context
 	C   *l1.Conc
 	Cfg RunCfg
-	V   *ValState // only for validator-set runs
+	V   *ValState  // only for validator-set runs
+	O   *OracleCfg // only for oracle runs
 }
 
 var hookGas = map[string]uint64{"ample": 1_000_000, "tiny": 500, "zero": 0}
@@ -135,7 +136,7 @@ func NewChain(c *l1.Conc, cfg RunCfg) *Chain {
 
 func (ch *Chain) Fork() *Chain {
 	cc, _ := ch.Ctx.CacheContext()
-	return &Chain{F: ch.F, Ctx: cc, C: ch.C, Cfg: ch.Cfg, V: ch.V.clone()}
+	return &Chain{F: ch.F, Ctx: cc, C: ch.C, Cfg: ch.Cfg, V: ch.V.clone(), O: ch.O}
 }
 
 type Outcome struct {
@@ -403,6 +404,9 @@ func (ch *Chain) Exec(e M) Outcome {
 		return Outcome{OK: true, Resp: M{"same": same}}
 	}
 	if out, ok := ch.execVal(e); ok {
+		return out
+	}
+	if out, ok := ch.execOracle(e); ok {
 		return out
 	}
 	panic("unknown event type " + ty)
